@@ -74,21 +74,24 @@ Section Emitted.
 Variable c : comp.
 Hypothesis W : WF c.
 Variable p : pspec.
-Hypothesis LOAD : load_spec (emit_comp c) pspec0 = OK p.
+(* the component's lines may be part of a larger document (a system's): only their presence matters *)
+Variable ls : list pline.
+Hypothesis LOAD : load_spec ls pspec0 = OK p.
+Hypothesis INC : incl (emit_comp c) ls.
 Let P := c_prefix c.
-Let LIp : LI p := load_spec_LI (emit_comp c) pspec0 p LI_empty LOAD.
-Let SH := load_spec_shape (emit_comp c) pspec0 p LOAD.
+Let LIp : LI p := load_spec_LI ls pspec0 p LI_empty LOAD.
+Let SH := load_spec_shape ls pspec0 p LOAD.
 
 Lemma classified_entry_sup n items len : In (PSup n items len) (emit_comp c) -> exists l, In (n, (classify p items, l)) (p_sups p).
-Proof. intros Hin. destruct (sh_sup _ _ SH n items len Hin) as [p1 [rs [G [GS Hs]]]]. destruct (get_seqs_classify p1 items rs GS) as [E D].
+Proof. intros Hin. destruct (sh_sup _ _ SH n items len (INC _ Hin)) as [p1 [rs [G [GS Hs]]]]. destruct (get_seqs_classify p1 items rs GS) as [E D].
   exists (refs_len p1 rs). rewrite (classify_grows p1 p items G LIp D), <- E. exact Hs. Qed.
 Lemma classified_entry_strand d n items len : In (PStrand d n items len) (emit_comp c) -> exists l, In (n, (classify p items, l, d)) (p_strands p).
-Proof. intros Hin. destruct (sh_strand _ _ SH d n items len Hin) as [p1 [rs [G [GS Hs]]]]. destruct (get_seqs_classify p1 items rs GS) as [E D].
+Proof. intros Hin. destruct (sh_strand _ _ SH d n items len (INC _ Hin)) as [p1 [rs [G [GS Hs]]]]. destruct (get_seqs_classify p1 items rs GS) as [E D].
   exists (refs_len p1 rs). rewrite (classify_grows p1 p items G LIp D), <- E. exact Hs. Qed.
 
 Lemma emitted_Rel : Rel p (final_env c).
 Proof. apply (Rel_defs p LIp (emit_comp c) [] (final_env c) (emit_defs c W)).
-  - intros n k len Hin. apply (sh_seq _ _ SH n k len Hin).
+  - intros n k len Hin. apply (sh_seq _ _ SH n k len (INC _ Hin)).
   - intros n items len Hin. apply (classified_entry_sup n items len Hin).
   - intros n v H. discriminate. Qed.
 
@@ -106,3 +109,7 @@ Proof. intros Hin. assert (LN : In (PStrand (t_dummy t) (P +++ n) (emit_items c 
     rewrite (flat_refs_base c _ _ OKs). reflexivity. }
   apply (flat_classify p (final_env c) _ emitted_Rel _ R). Qed.
 End Emitted.
+
+(* the component compiled and loaded on its own *)
+Definition strand_flattening_alone c (W : WF c) p (LOAD : load_spec (emit_comp c) pspec0 = OK p) :=
+  strand_flattening c W p (emit_comp c) LOAD (incl_refl _).
